@@ -137,6 +137,11 @@ func shapeDoc(s map[string]any, r *rand.Rand) *sbom.Document {
 				{Type: sbom.ExternalReference_WEBSITE, Url: "://"}, {Type: sbom.ExternalReference_VCS, Url: "\x7f"}}
 			a.UrlHome, a.UrlDownload = "%", "http://[::1"
 			nl.Nodes = []*sbom.Node{a, b, c}
+		case "mixed-purposes": // several purposes per node, the unknown one in front of, between and behind real ones
+			a.PrimaryPurpose = []sbom.Purpose{sbom.Purpose_UNKNOWN_PURPOSE, sbom.Purpose_LIBRARY}
+			b.PrimaryPurpose = []sbom.Purpose{sbom.Purpose_UNKNOWN_PURPOSE, sbom.Purpose_UNKNOWN_PURPOSE, sbom.Purpose_FILE}
+			c.PrimaryPurpose = []sbom.Purpose{sbom.Purpose_FRAMEWORK, sbom.Purpose_UNKNOWN_PURPOSE, sbom.Purpose_APPLICATION, sbom.Purpose_FRAMEWORK}
+			nl.Nodes = []*sbom.Node{a, b, c}
 		case "rich":
 			nl.Nodes = []*sbom.Node{randNode(r, "a", 0.9), b, randNode(r, "c", 0.9)}
 		default:
